@@ -100,7 +100,7 @@ def med_schema(m, ctor, term, rec):
         parent, anc = pushes[0]
         ok_loop = False
         for (a, i) in anc:
-            if a[0] == "for" and M(("call", "<Vec<Node> as iter::IntoIterator>::into_iter", ("C0",)), a[2]) is not None:
+            if a[0] == "for" and M(("call", "iter", ("C0",)), a[2]) is not None:
                 body = a[3]
                 if body == parent or (isinstance(body, tuple) and body[0] == "seq" and body[-1] == parent and not any(isinstance(x, tuple) and x[0] in ("if", "match", "loop", "for") for x in body[1:-1])):
                     ok_loop = True
@@ -167,7 +167,7 @@ def always_sets_some(body, mvar):
 
 def seeded_schema(term, rec, ctor):
     just = Counter()
-    e = M(("if", ("op", "gt", "usize", ("call", "Vec::len", ("C0",)), ("lit", "?k", "usize")), ("seq", ("let", "?m", ("None",)), ("for", "?p", ("call", "<Vec<Node> as iter::IntoIterator>::into_iter", ("C0",)), "?body"), ("Ok", ("call", "Option::unwrap", ("var", "?m")))), "?else"), term)
+    e = M(("if", ("op", "gt", "usize", ("call", "Vec::len", ("C0",)), ("lit", "?k", "usize")), ("seq", ("let", "?m", ("None",)), ("for", "?p", ("call", "iter", ("C0",)), "?body"), ("Ok", ("call", "Option::unwrap", ("var", "?m")))), "?else"), term)
     if e is not None and int(e["?k"]) >= 0 and always_sets_some(e["?body"], ("var", e["?m"])):
         # writes to m only inside the loop (checked: the seq has exactly let/for/Ok)
         just[("call", "Option::unwrap")] += 1
